@@ -10,6 +10,7 @@ e = {"id": fid, "property": prop, "status": status, "what": what,
      "witness": sorted(x.replace("/verif/", "") for x in glob.glob("/verif/" + wglob))}
 if commit != "-":
     e["commit"] = commit
+e["line"] = (f"fixed: property={prop} {commit} {what}" if status == "fixed" else f"KNOWN-FINDING: property={prop} {fid} {what}")
 d["findings"].append(e)
 json.dump(d, open(p, "w"), indent=1)
 print(fid, len(e["witness"]), "witnesses")
